@@ -39,6 +39,11 @@ func newServer(bufsize int64) *service.Server {
 }
 
 func rawConnect(svr *service.Server, id int, c wConnect) (*rawClient, bool) {
+	return rawConnectWith(svr, id, c, true)
+}
+
+// rawConnectWith: wait = false returns when the CONNECT has been written (the answer stays in items)
+func rawConnectWith(svr *service.Server, id int, c wConnect, wait bool) (*rawClient, bool) {
 	cl, sv := net.Pipe()
 	rc := newRawClient(id, cl)
 	rc.stopped = make(chan struct{})
@@ -47,6 +52,9 @@ func rawConnect(svr *service.Server, id int, c wConnect) (*rawClient, bool) {
 	stoppedMu.Unlock()
 	go svr.VerifServe(sv)
 	rc.write(c.encode())
+	if !wait {
+		return rc, false
+	}
 	rc.waitUntil(func() bool { return len(rc.items) > 0 || rc.eof }, brokerWait)
 	it := rc.take()
 	rc.accepted = len(it) > 0 && strings.HasPrefix(it[0], "CONNACK") && strings.HasSuffix(it[0], " 0")
